@@ -305,32 +305,118 @@ def all_words(alphabet, maxlen):
 
 
 # ------------------------------------------------------------------ representation specs
-def rand_spec(rng, ring=None, simple=None, n=None, names=None, reassign=True, kind=None):
+def int_matrix(rng, n, maxabs=3):
+    """integer matrix with non-zero determinant, in general not unimodular (e.g. [[2]])"""
+    while True:
+        M = [[F(rng.randint(-maxabs, maxabs)) for _ in range(n)] for _ in range(n)]
+        d = Q.det(M)
+        if d != 0 and (n > 2 or abs(d) != 1 or rng.random() < 0.3):
+            return M
+
+
+def mix_dtypes(rng, spec):
+    """give the assignments different numpy dtypes (the model runs over the common exact ring): integer matrices of
+    arbitrary non-zero determinant as int64 / int32 next to float64 ones (ring Q), real ones next to complex ones (ring C)"""
+    n, ring = spec["n"], spec["ring"]
+    if ring == "Q":
+        for h in spec["hist"]:
+            if rng.random() < 0.5:
+                h["m"] = enc(int_matrix(rng, n))
+                h["dt"] = rng.choice(["int64", "int32"])
+            else:
+                h["dt"] = "float64"
+    elif ring == "C":
+        for h in spec["hist"]:
+            if rng.random() < 0.5:
+                if rng.random() < 0.5:
+                    h["m"], h["dt"] = enc(int_matrix(rng, n)), rng.choice(["int64", "float64"])
+                else:
+                    h["m"], h["dt"] = enc(gen_matrix(rng, n, "Q")), "float64"
+            else:
+                h["dt"] = "complex128"
+    elif ring == "Z":
+        for h in spec["hist"]:
+            h["dt"] = rng.choice(["int64", "int64", "int32"])
+    return spec
+
+
+def rand_spec(rng, ring=None, simple=None, n=None, names=None, reassign=True, kind=None, dtmix=None):
     ring = ring or rng.choice(["Q", "Q", "Q", "Z", "C"])
     simple = rng.random() < 0.7 if simple is None else simple
     n = n or rng.choice([1, 2, 2, 3, 3, 4, 5])
     names = names or rand_names(rng, simple)
+    # generators are assigned in random order, sometimes through their upper-case (inverse) name
     hist = [{"g": g, "m": enc(gen_matrix(rng, n, ring, kind)), "inv": True} for g in names]
     if reassign and rng.random() < 0.4:
         for _ in range(rng.randint(1, 3)):
             g = rng.choice(names)
             g = swapcase(g) if rng.random() < 0.4 else g        # assigning to the inverse letter re-assigns both
             hist.append({"g": g, "m": enc(gen_matrix(rng, n, ring, kind)), "inv": True})
-        rng.shuffle(hist)
-    return {"ring": ring, "n": n, "simple": simple, "hist": hist, "relations": []}
+    rng.shuffle(hist)
+    spec = {"ring": ring, "n": n, "simple": simple, "hist": hist, "relations": [],
+            "rel_mode": rng.choice(["ctor", "append", "append"])}
+    if dtmix if dtmix is not None else rng.random() < 0.4:
+        mix_dtypes(rng, spec)
+    return spec
+
+
+DTYPES = {"int64": np.int64, "int32": np.int32, "float64": np.float64, "complex128": np.complex128}
+
+
+def tonp_h(h, ring, cplx=False):
+    """the numpy matrix of one assignment, in the dtype the history prescribes"""
+    if "dt" not in h:
+        return tonp(h["m"], ring, cplx)
+    dt = h["dt"]
+    if dt in ("int64", "int32"):
+        return np.array([[int(F(x)) for x in r] for r in h["m"]], dtype=DTYPES[dt])
+    a = np.array([[complex(CF.of(dec1(x))) for x in r] for r in h["m"]], dtype=complex)
+    return a if dt == "complex128" or cplx else a.real.astype(np.float64)
 
 
 def build_rep(spec, cls=None, cplx=False):
+    """the representation of a spec.  Relators are given to the constructor or appended afterwards
+    (`rep.relations.append`), and a representation without relators is built without the keyword: the harness
+    creates many representations per process, so state shared between objects shows up."""
     from geometry_tools import representation as R
     cls = cls or R.Representation
-    rep = cls(parse_simple=spec["simple"], relations=list(spec.get("relations", [])))
+    rels = list(spec.get("relations", []))
+    mode = spec.get("rel_mode", "ctor")
+    if rels and mode == "ctor":
+        rep = cls(parse_simple=spec["simple"], relations=rels)
+    else:
+        rep = cls(parse_simple=spec["simple"])
     for h in spec["hist"]:
-        M = tonp(h["m"], spec["ring"], cplx)
+        M = tonp_h(h, spec["ring"], cplx)
         if h.get("inv", True):
             rep[h["g"]] = M
         else:
             rep.set_generator(h["g"], M, compute_inverse=False)
+    if rels and mode != "ctor":
+        for r in rels:
+            rep.relations.append(r)
     return rep
+
+
+def no_int32(spec):
+    for h in spec["hist"]:
+        if h.get("dt") == "int32":
+            h["dt"] = "int64"
+    return spec
+
+
+def has_int(spec):
+    return spec["ring"] == "Z" or any(h.get("dt") in ("int32", "int64") for h in spec["hist"])
+
+
+def cap_len(spec, k):
+    """word-length cap that keeps exact integer products inside the integer dtype (numpy wraps silently on overflow)"""
+    dts = {h.get("dt") for h in spec["hist"]}
+    if "int32" in dts:
+        return min(k, 6)
+    if "int64" in dts or spec["ring"] == "Z":
+        return min(k, 12)
+    return k
 
 
 def spec_names(spec):
